@@ -26,7 +26,7 @@ RULE = (
 )
 TIERS = {"quick": {"shards": 8, "n": 600, "budget_s": 220}, "thorough": {"shards": 16, "n": 6000, "budget_s": 2700}}
 FLOOR = {"quick": 300, "thorough": 10000}
-REQUIRED_LABELS = {"quick": ["pos:default", "pos:type", "pos:doc", "pos:decorator", "pos:module-level", "api:doctrans", "api:sync", "api:gen", "api:parsers", "api:routes", "control:input-eval-seen", "control:prepend-seen"], "thorough": []}
+REQUIRED_LABELS = {"quick": ["pos:default", "pos:type", "pos:doc", "pos:decorator", "pos:module-level", "api:doctrans", "api:sync", "api:gen", "api:parsers", "api:routes", "paths:relative+cwd-on-sys.path", "control:input-eval-seen", "control:prepend-seen"], "thorough": []}
 ASSUMPTIONS = [
     "the monitor sees Python-level audit events (exec, import, open, os.*, subprocess.*, socket.*, ctypes.*); code executed without raising an audit event would be invisible (none known in CPython 3.12 for these paths)",
     "code compiled from a STRING and executed is acceptable only when it is a pure expression lookup: no CALL / IMPORT / STORE / MAKE_FUNCTION instruction and no dunder name (the docstring parser's type-name probe)",
@@ -117,7 +117,7 @@ def case_strategy(draw):
         # the payload as an operand: the characters `* ^ & | $ @ !` route a prose default through the "this is code,
         # not a literal" branch of the default extraction
         payload = draw(st.sampled_from(["{p} * 1", "1 | {p}", "{p} ^ 1", "1 & {p}", "1 @ {p}", "60 * 60 * {p}", "not {p} != 1", "{p} ** 2"])).replace("{p}", payload)
-    return {"payload": payload, "pos": pos, "trigger": trig, "doctyp": draw(st.sampled_from(["int", "int", "float", "bool", "complex", "str", "Optional[int]"])), "style": draw(st.sampled_from(["rest", "google", "numpydoc"])), "api": draw(st.sampled_from(sorted(APIS)))}
+    return {"payload": payload, "pos": pos, "trigger": trig, "doctyp": draw(st.sampled_from(["int", "int", "float", "bool", "complex", "str", "Optional[int]"])), "style": draw(st.sampled_from(["rest", "google", "numpydoc"])), "api": draw(st.sampled_from(sorted(APIS))), "rel": draw(st.booleans())}
 
 
 def strategy(ctx):
@@ -267,8 +267,15 @@ def api_parsers(case, d):
     return set()
 
 
+def J(case, d, name):
+    """file name as handed to cdd: absolute, or - `rel` cases - bare and relative to the current directory, which is
+    then also on sys.path (what `cd project && python -m cdd ...` gives): a file named on the command line must be read
+    as data under that spelling too, never imported"""
+    return name if case.get("rel") else os.path.join(d, name)
+
+
 def api_doctrans(case, d):
-    p = os.path.join(d, "m.py")
+    p = J(case, d, "m.py")
     with open(p, "w") as f:
         f.write(function_src(case) + "\n\n" + class_src(case).replace("import os\n", ""))
     try:
@@ -279,7 +286,7 @@ def api_doctrans(case, d):
 
 
 def api_sync(case, d):
-    c, f, a = (os.path.join(d, x) for x in ("c.py", "f.py", "a.py"))
+    c, f, a = (J(case, d, x) for x in ("c.py", "f.py", "a.py"))
     open(c, "w").write(class_src(case))
     open(f, "w").write(function_src(case, "method_name"))
     open(a, "w").write(argparse_src(case))
@@ -295,21 +302,29 @@ def api_sync(case, d):
 def api_gen(case, d):
     outs = set()
     for i, (src, parse) in enumerate(((class_src(case), "class"), (function_src(case), "function"), (argparse_src(case), "argparse"), (class_src(case), "infer"))):
-        ip = os.path.join(d, "in%d.py" % i)
+        ip = J(case, d, "in%d.py" % i)
         open(ip, "w").write(src)
         for emit in ("argparse", "class", "function", "json_schema"):
-            op = os.path.join(d, "out%d_%s.%s" % (i, emit, "json" if emit == "json_schema" else "py"))
+            op = J(case, d, "out%d_%s.%s" % (i, emit, "json" if emit == "json_schema" else "py"))
             outs.add(op)
             try:
                 cdd.__main__.main(["gen", "--name-tpl", "{name}X", "--input-mapping", ip, "--parse", parse, "--emit", emit, "-o", op, "--emit-and-infer-imports"])
             except BaseException as e:
                 if isinstance(e, (core.CaseTimeout, KeyboardInterrupt)):
                     raise
+        # --imports-from-file names a FILE whose import statements are copied: it is data as well
+        op = J(case, d, "outimp%d.py" % i)
+        outs.add(op)
+        try:
+            cdd.__main__.main(["gen", "--name-tpl", "{name}X", "--input-mapping", ip, "--parse", parse, "--emit", "class", "-o", op, "--imports-from-file", ip])
+        except BaseException as e:
+            if isinstance(e, (core.CaseTimeout, KeyboardInterrupt)):
+                raise
     return outs
 
 
 def api_sync_properties(case, d):
-    i, o = os.path.join(d, "i.py"), os.path.join(d, "o.py")
+    i, o = J(case, d, "i.py"), J(case, d, "o.py")
     open(i, "w").write(class_src(case))
     open(o, "w").write("class Target(object):\n    a: str = 'x'\n\ndef g(a=1, z=2):\n    return a\n")
     for op in ("Target.a", "g.a"):
@@ -441,6 +456,11 @@ def oracle(case):
     d = tempfile.mkdtemp(prefix="c17_", dir="/dev/shm" if os.path.isdir("/dev/shm") else None)
     case = dict(case, sentfile=os.path.join(d, "SENTINEL_FILE"))
     r.label("pos:" + case["pos"], "api:" + case["api"])
+    cwd0 = os.getcwd()
+    if case.get("rel"):
+        r.label("paths:relative+cwd-on-sys.path")
+        os.chdir(d)
+        sys.path.insert(0, d)
     try:
         del FIRED[:]
         builtins.__vp_sentinel_imported__ = []
@@ -468,6 +488,12 @@ def oracle(case):
             r.fail("module-from-input-loaded", "%s" % new)
         judge_events(r, events, {os.path.abspath(x) for x in allowed}, d)
     finally:
+        if case.get("rel"):
+            os.chdir(cwd0)
+            while d in sys.path:
+                sys.path.remove(d)
+        for m in [m for m in list(sys.modules) if str(getattr(sys.modules[m], "__file__", None) or "").startswith(d + os.sep)]:
+            sys.modules.pop(m, None)
         shutil.rmtree(d, ignore_errors=True)
     r.nontrivial = case["pos"] in ("default", "type", "doc", "doc-type", "doc-default")
     return r
